@@ -53,7 +53,11 @@ func runMcache(e *env, c *Case, res *Result) {
 			m, i := num(el, "m"), num(el, "i")
 			mac := u0.MAC(fmt.Sprintf("m%d", 20+m))
 			ip := u0.IP(fmt.Sprintf("a%d", 20+m))
-			msg := mdnsResponse(uint16(0x1000+i), fmt.Sprintf("host%d.local", m), ip.As4())
+			id := uint16(num(v.Aux, "id1"))
+			if i == 2 {
+				id = uint16(num(v.Aux, "id2"))
+			}
+			msg := mdnsResponse(id, fmt.Sprintf("host%d.local", m), ip.As4())
 			if str(el, "k") == "bad" {
 				msg = msg[:len(msg)-2] // the A record is cut inside its RDATA: malformed
 			}
